@@ -98,12 +98,31 @@ class _Mismatch(Exception):
     self.what, self.detail = what, detail
 
 
+# value mode of the current run (set from the workload at the start of every
+# run): 0 = positive values only; 1 = signed values, zeros in the input and
+# in the coefficient streams listed (numerator-only streams of filters that
+# are never divided by)
+_VM = {"mode": 0, "zeros": frozenset()}
+
+
 def src_value(sid, i):
-  return Fraction(1 + ((sid * 7 + i * 3) % 11), 1 + (sid % 3))
+  v = Fraction(1 + ((sid * 7 + i * 3) % 11), 1 + (sid % 3))
+  if _VM["mode"]:
+    if sid in _VM["zeros"] and i % 4 == 2:
+      return Fraction(0)
+    if (sid + i) % 3 == 0:
+      return -v
+  return v
 
 
 def x_value(i):
-  return Fraction(2 * i + 1, 1 + (i % 2))
+  v = Fraction(2 * i + 1, 1 + (i % 2))
+  if _VM["mode"]:
+    if i % 5 == 3:
+      return Fraction(0)
+    if i % 3 == 1:
+      return -v
+  return v
 
 
 # -- tiny exact polynomial helpers (dict power -> Fraction)
@@ -153,8 +172,12 @@ class C06(Property):
                 "stub": ["input and coefficient readers: SimSource with read "
                          "accounting and seeded EOF"]}
   assumptions = [
-    "integer constants only (generated code embeds str(coeff)); stream and "
-    "input values are non-zero Fractions; zero=Fraction(0) is passed",
+    "constants are integers, exact rationals and (single filters) floats / "
+    "complex numbers; stream and input values are exact Fractions - "
+    "positive, or (a quarter of the runs) signed with zeros in the input "
+    "and in numerator-only coefficient streams; zero=Fraction(0) is passed",
+    "a generated filter whose coefficients all came out as plain constants "
+    "is LTI, outside the statement: run, not judged",
     "every constant coefficient is non-zero and every numerator non-empty, "
     "so every stream given to the algebra is actually used",
     "the output of a filter is fixed given ITS coefficient streams; the "
@@ -392,7 +415,18 @@ class C06(Property):
       lens = dict((k, None if v is None or W.chance("ll-endless", 1, 2)
                    else lag + 2 + v) for k, v in lens.items())
       xlen = lag + 3 + W.choose("ll-x", 9)
+    vmode, zero_sids = 0, []
+    if W.chance("signed-values", 1, 4):
+      # negative values, zeros in the input, and zeros at some samples of
+      # coefficient streams that only ever multiply (numerator terms of
+      # filters nothing is divided by)
+      vmode = 1
+      if shape in ("single", "add", "mul", "scale", "add3", "mulscale",
+                   "sub", "neg", "addc", "cascade", "parallel", "fraclin",
+                   "copyadd", "copymul", "copyonly", "linearize"):
+        zero_sids = self.numerator_only_sids(tree)
     return {"tree": tree, "lens": lens, "xlen": xlen,
+            "vmode": vmode, "zero_sids": zero_sids,
             "cstream": W.choose("cstream", 4),
             # hashing a filter (set member, dict key) before it is called
             "hash_first": W.chance("hash", 1, 6),
@@ -845,6 +879,27 @@ class C06(Property):
     return out
 
   @staticmethod
+  def numerator_only_sids(t):
+    """ Plain ("s") coefficient streams that occur in numerators only. """
+    num, other = set(), set()
+
+    def rec(t):
+      if t["op"] == "single":
+        for part in ("num", "den"):
+          for k, c in t[part]:
+            if c[0] in ("s", "h", "p"):
+              (num if part == "num" and c[0] == "s" else other).add(c[1])
+      else:
+        if "c" in t and isinstance(t["c"], list) and \
+           t["c"][0] in ("s", "h", "p"):
+          other.add(t["c"][1])
+        for sub in ("a", "b"):
+          if sub in t:
+            rec(t[sub])
+    rec(t)
+    return sorted(num - other)
+
+  @staticmethod
   def tree_has_stream(t):
     """ Any coefficient (or scalar operand) that is not a plain constant? """
     if t["op"] == "single":
@@ -892,6 +947,12 @@ class C06(Property):
     res = RunResult()
     events = []
     info = {}
+    _VM["mode"] = workload.get("vmode", 0)
+    _VM["zeros"] = frozenset(workload.get("zero_sids", ()))
+    if _VM["mode"]:
+      res.counters["probe.signed-values"] += 1
+      if _VM["zeros"]:
+        res.counters["probe.zero-valued-coefficient-samples"] += 1
     try:
       self._run(workload, S, res, events, info)
     except _Mismatch as mm:
